@@ -107,6 +107,14 @@ func VerifC17_Jobs() {
 	modifiable := sym.Bool("payload-modifiable")
 	def, _ := json.Marshal(&evmtypes.JobDefinition{Address: c17Target, ABI: "00"})
 	job := &schedulertypes.Job{ID: "job1", Routing: schedulertypes.Routing{ChainType: "evm", ChainReferenceID: ChainA}, Definition: def, Payload: storedJSON, IsPayloadModifiable: modifiable}
+	// the embedded job may arrive with an owner field already filled in (by anybody's name);
+	// the owner on record is the creator who authorised the transaction all the same
+	switch sym.Choice("preset-owner", 3) {
+	case 1:
+		job.Owner = c17Owner
+	case 2:
+		job.Owner = c17Other
+	}
 	_, err := srv.CreateJob(env.Ctx, &schedulertypes.MsgCreateJob{Job: job, Metadata: c17Meta(c17Owner)})
 	sym.Assert(err == nil, "job-created")
 	sym.Reach("job-created")
